@@ -37,7 +37,7 @@ def run_job(job):
         home = runner.make_home(sc)
         root = os.path.join(w, "t")
         os.mkdir(root)
-        ordering.order_tree(rng, root)
+        ordering.order_tree(rng, root, extra=job.get("extra", 0))
 
         def run(q, trace=False):
             res.ev()
@@ -110,6 +110,8 @@ def main(chk):
     quick = chk.tier == "quick"
     n = 200 if quick else 1600
     jobs = [{"id": "j%d" % i, "seed": job_seed(chk.seed, "C05", i), "queries": 14 if quick else 24} for i in range(n)]
+    for i in range(2 if quick else 16):
+        jobs.append({"id": "large%d" % i, "seed": job_seed(chk.seed, "C05", "L%d" % i), "queries": 6, "extra": 2500})
     chk.run_jobs(jobs, budget_s=300 if quick else 3000)
     return chk.finish(
         rule="trees with many ties (sizes 5/50/500/9/90..., equal names in different directories, a directory with >= 10 sub-directories, "
